@@ -102,7 +102,7 @@ func (b *ByteWrap[T]) UnmarshalCBORStream(r io.Reader, o DecoderOptions, flatten
 	if err != nil {
 		return err
 	}
-	if n > math.MaxInt64 {
+	if n > math.MaxInt64 || n >= MaxArrayDecodeLength {
 		return fmt.Errorf("bytewrap too long to decode")
 	}
 	r = io.LimitReader(r, int64(n))
@@ -149,6 +149,9 @@ func (c *X509Certificate) UnmarshalCBORStream(r io.Reader, o DecoderOptions, fla
 		return err
 	}
 
+	if n >= MaxArrayDecodeLength {
+		return fmt.Errorf("certificate byte string exceeds max size: %d", n)
+	}
 	der := make([]byte, n)
 	if _, err := io.ReadFull(r, der); err != nil {
 		return err
@@ -189,6 +192,9 @@ func (c *X509CertificateRequest) UnmarshalCBORStream(r io.Reader, o DecoderOptio
 		return err
 	}
 
+	if n >= MaxArrayDecodeLength {
+		return fmt.Errorf("certificate request byte string exceeds max size: %d", n)
+	}
 	der := make([]byte, n)
 	if _, err := io.ReadFull(r, der); err != nil {
 		return err
